@@ -528,10 +528,19 @@ enum Built {
 
 fn build(req: &ReqSpec) -> Result<Built, String> {
     Ok(match req {
-        ReqSpec::Read { kind, start, count } => Built::Read(
-            *kind,
-            AddressRange::try_from(*start, *count).map_err(|e| format!("{:?}", e))?,
-        ),
+        ReqSpec::Read { kind, start, count } => match AddressRange::try_from(*start, *count) {
+            Ok(r) => Built::Read(*kind, r),
+            // the fields of AddressRange are public: half of the ranges the constructor refuses
+            // are handed to the channel as a struct literal, as any caller can do
+            Err(_) if (start ^ count) & 1 == 0 => Built::Read(
+                *kind,
+                AddressRange {
+                    start: *start,
+                    count: *count,
+                },
+            ),
+            Err(e) => return Err(format!("{:?}", e)),
+        },
         ReqSpec::WriteCoil { addr, value } => Built::WriteCoil(Indexed::new(*addr, *value)),
         ReqSpec::WriteReg { addr, value } => Built::WriteReg(Indexed::new(*addr, *value)),
         ReqSpec::WriteCoils { start, values } => Built::WriteCoils(
@@ -902,7 +911,8 @@ pub fn run_client(case: &CliCase) -> CliRun {
                     };
                     let param = RequestParam::new(
                         UnitId::new(*unit),
-                        Duration::from_millis(*timeout_ms as u64),
+                        // u32::MAX stands for "no timeout": the largest Duration there is
+                        if *timeout_ms == u32::MAX { Duration::MAX } else { Duration::from_millis(*timeout_ms as u64) },
                     );
                     let now = tokio::time::Instant::now() - start;
                     let built = match build(req) {
